@@ -54,7 +54,7 @@ def shards(tier, seed):
 
 def min_required(tier):
     return {"evaluations": 1500, "digest_maps_checked": 800, "hexdigests_checked": 300, "plain_after_nondefault": 40,
-            "overlapping_results_checked": 100, "overlapping_schedules": 40, "free_running_results_checked": 200}
+            "hexdigests_after_delete_and_restore": 20, "overlapping_results_checked": 100, "overlapping_schedules": 40, "free_running_results_checked": 200}
 
 
 def history(rng, w, res, algo_cycle):
@@ -100,9 +100,21 @@ def history(rng, w, res, algo_cycle):
             ops.append({"op": "hexdigest", "pid": pid, "algo": spelling(rng, rng.choice(ALL_ALGOS))})
         elif r < 0.85:
             ops.append({"op": "hexdigest", "pid": rng.choice(live), "algo": spelling(rng, next(algo_cycle))})
-        else:
+        elif r < 0.93:
             pid = live.pop(rng.randrange(len(live)))
             ops.append({"op": "delete", "pid": pid})
+        else:
+            # the same pid names other content later in its life: digest asked, pid deleted, digest asked again (must be
+            # refused), pid stored again with OTHER content, same digest asked again - must be that of the new content
+            pid = live[rng.randrange(len(live))]
+            first = next((o["content"] for o in reversed(ops) if o["op"] == "store" and o.get("pid") == pid), None)
+            a = spelling(rng, next(algo_cycle))
+            ops.append({"op": "hexdigest", "pid": pid, "algo": a})
+            ops.append({"op": "delete", "pid": pid})
+            ops.append({"op": "hexdigest", "pid": pid, "algo": a})
+            ops.append({"op": "store", "pid": pid, "content": rng.choice([c for c in SPEC if c != first]), "kind": "path"})
+            ops.append({"op": "hexdigest", "pid": pid, "algo": a})
+            ops[-1]["after_rebirth"] = True
     ops.append({"op": "store", "pid": f"p{k}", "content": "b1", "kind": "path"})
     ops.append({"op": "store", "pid": None, "content": "big", "kind": "path"})
     before = None
@@ -120,6 +132,8 @@ def history(rng, w, res, algo_cycle):
                 requested_nondefault = True
         if op["op"] == "hexdigest" and out.ok:
             res.count("hexdigests_checked")
+            if op.get("after_rebirth"):
+                res.count("hexdigests_after_delete_and_restore")
             res.distinct.add(repr(("hex", op["algo"], requested_nondefault)))
         rel = [f for f in findings if relevant(f)]
         for f in findings:
@@ -128,8 +142,8 @@ def history(rng, w, res, algo_cycle):
         if rel:
             res.violation(finding_signature(rel[0]), seq_witness(w, ops, rel, SPEC, upto=i + 1))
             return ops
-        if findings:
-            return ops
+        if findings and op["op"] != "hexdigest":
+            return ops      # (a read-only call changes no state: the history can go on after an observation owned elsewhere)
     return ops
 
 
